@@ -56,6 +56,8 @@ func main() {
 		libMode(os.Args[2:])
 	case "libcorr":
 		libCorr(os.Args[2:])
+	case "share":
+		shareMode(os.Args[2:])
 	case "pools":
 		p := loadPools()
 		for i, n := range p.textN {
